@@ -3,6 +3,7 @@ package main
 import (
 	"fmt"
 	"go/ast"
+	"go/token"
 	"go/types"
 	"sort"
 	"strings"
@@ -602,4 +603,216 @@ func ruleMPTBatchSource(c *Ctx) {
 		}
 	}
 	c.Floor("uses of the layer after the batch", nuse, 3)
+}
+
+// ---------------------------------------------------------------------------
+// C04 unload-rollback, reset-complete, try-scan
+
+func ruleUnloadRollback(c *Ctx) {
+	fd := c.P.Func("pkg/core/interop/contract", "", "callExFromNative")
+	if fd == nil {
+		c.Lost("anchor", "callExFromNative not found")
+		return
+	}
+	info := fd.Pkg.TypesInfo
+	// the unload callback: the function literal with a `commit bool` parameter
+	var lit *ast.FuncLit
+	ast.Inspect(fd.Decl.Body, func(n ast.Node) bool {
+		if l, ok := n.(*ast.FuncLit); ok && lit == nil {
+			for _, fl := range l.Type.Params.List {
+				for _, nm := range fl.Names {
+					if nm.Name == "commit" {
+						lit = l
+					}
+				}
+			}
+		}
+		return true
+	})
+	if lit == nil {
+		c.Lost("unload-callback", "no unload callback (func literal with a commit parameter) in callExFromNative")
+		return
+	}
+	f := c.P.NewLitCFG(info, "pkg/core/interop/contract.callExFromNative$onUnload", lit)
+	pos := c.P.Pos(lit.Pos())
+	wrappedT := symAssume("local:wrapped", true)
+	// (a) persist only on commit
+	persist := f.CallSites(symDAOPersist)
+	if len(persist) == 0 {
+		c.Lost("unload.persist", "unload callback does not persist the wrapped layer")
+	} else {
+		for _, g := range []Guard{
+			{ID: "commit", Doc: "the callee's layer is persisted only when the context unloads without an uncaught exception", Alts: [][]string{{"param:commit"}}},
+			{ID: "wrapped", Doc: "a layer is persisted only if this call created one", Alts: [][]string{{"local:wrapped"}}},
+		} {
+			res := f.CheckGate(f.Entry(), blocksOf(persist), g, nil)
+			if res.OK {
+				c.OK("unload.persist."+g.ID, pos, res.Msg)
+			} else {
+				c.Fail("unload.persist."+g.ID, pos, "unload callback of a wrapped call: "+res.Msg, res.Path...)
+			}
+		}
+	}
+	// (b) on the failing branch notifications are cut back, and nothing is persisted
+	exits := blocksOf(f.Returns())
+	failA := &Assume{Sym: map[string]bool{"local:wrapped": true, "param:commit": false}}
+	if ok, path, n := f.CheckMustNode(f.Entry(), exits, failA, "pkg/core/interop#Notifications", "local:baseNtfCount"); ok && n > 0 {
+		c.OK("unload.rollback.notifications", pos, "on an uncaught exception every path cuts ic.Notifications back to the length recorded before the call")
+	} else {
+		c.Fail("unload.rollback.notifications", pos, "an exit of the unload callback on the exception branch keeps the callee's notifications (no truncation to baseNtfCount)", path...)
+	}
+	r := f.reach(f.Entry(), nil, failA)
+	leak := false
+	for _, p := range persist {
+		if _, ok := r[p.blk]; ok {
+			leak = true
+		}
+	}
+	if leak {
+		c.Fail("unload.rollback.no-persist", pos, "the callee's layer can be persisted although the context unloads with an uncaught exception")
+	} else {
+		c.OK("unload.rollback.no-persist", pos, "no Persist is reachable on the exception branch")
+	}
+	// (c) the base layer is restored on both branches
+	okExits := blocksOf(f.OKReturns()) // an error from the callback faults the whole execution: nothing continues on that layer
+	if ok, path, n := f.CheckMustNode(f.Entry(), okExits, wrappedT, "pkg/core/interop#DAO", "local:baseDAO"); ok && n > 0 {
+		c.OK("unload.restore-dao", pos, "every non-failing exit of a wrapped call's unload restores ic.DAO to the base layer")
+	} else {
+		c.Fail("unload.restore-dao", pos, "an exit of the unload callback leaves ic.DAO pointing at the callee's private layer", path...)
+	}
+	// (d) in the enclosing function: baseline values are captured before the layer is replaced and the callee loaded
+	of := c.P.NewFuncCFG(fd)
+	load := of.CallSites("pkg/vm.(*VM).LoadNEFMethod")
+	if len(load) == 0 {
+		c.Lost("call.load", "no LoadNEFMethod in callExFromNative")
+	} else {
+		for _, mn := range [][]string{{"local:baseNtfCount", "pkg/core/interop#Notifications", "builtin.len"}, {"local:baseDAO", "pkg/core/interop#DAO"}} {
+			ok, path, n := of.CheckMustNode(of.Entry(), blocksOf(load), nil, mn...)
+			key := "call.baseline." + strings.TrimPrefix(mn[0], "local:")
+			if ok && n > 0 {
+				c.OK(key, c.P.Pos(fd.Decl.Pos()), mn[0]+" is captured before the callee is loaded")
+			} else {
+				c.Fail(key, c.P.Pos(fd.Decl.Pos()), "the callee can be loaded without "+mn[0]+" having been captured", path...)
+			}
+		}
+		// a private layer is created iff the unload callback will handle it
+		res := of.CheckGate(of.Entry(), blocksOf(of.NodeSites("pkg/core/interop#DAO", symGetPrivate)), Guard{ID: "wrapped", Doc: "the private layer is created under the same flag the unload callback tests", Alts: [][]string{{"local:wrapped"}}}, nil)
+		if res.OK {
+			c.OK("call.layer-iff-wrapped", c.P.Pos(fd.Decl.Pos()), res.Msg)
+		} else {
+			c.Fail("call.layer-iff-wrapped", c.P.Pos(fd.Decl.Pos()), "a private DAO layer is created on a path where the unload callback will not commit or drop it: "+res.Msg, res.Path...)
+		}
+	}
+	// (e) the VM tells the callback the truth: commit == no uncaught exception
+	if uc := c.P.Func("pkg/vm", "VM", "unloadContext"); uc == nil {
+		c.Lost("vm.unloadContext", "unloadContext not found")
+	} else {
+		uf := c.P.NewFuncCFG(uc)
+		found := false
+		for _, s := range uf.CallSites("pkg/vm#onUnload") {
+			if len(s.call.Args) == 3 {
+				if be, ok := ast.Unparen(s.call.Args[2]).(*ast.BinaryExpr); ok && be.Op == token.EQL && uf.DirectMentions(be)["pkg/vm#uncaughtException"] && isNilIdent(uf.Info, be.Y) {
+					found = true
+				}
+			}
+		}
+		if found {
+			c.OK("vm.unload-commit-flag", c.P.Pos(uc.Decl.Pos()), "unload callbacks receive commit = (uncaughtException == nil)")
+		} else {
+			c.Fail("vm.unload-commit-flag", c.P.Pos(uc.Decl.Pos()), "unloadContext no longer passes `v.uncaughtException == nil` as the commit flag of the unload callback")
+		}
+	}
+	// (f) every try context of every frame of the current contract decides whether a call needs a layer of its own
+	if hb := c.P.Func("pkg/vm", "VM", "ContractHasTryBlock"); hb == nil {
+		c.Lost("vm.ContractHasTryBlock", "ContractHasTryBlock not found")
+	} else {
+		hf := c.P.NewFuncCFG(hb)
+		okScan := false
+		for _, s := range hf.CallSites("pkg/vm.(*Stack).Peek") {
+			if len(s.call.Args) != 1 {
+				continue
+			}
+			id, ok := ast.Unparen(s.call.Args[0]).(*ast.Ident)
+			if !ok {
+				continue
+			}
+			for _, d := range hf.defs[hf.Info.ObjectOf(id)] {
+				if rs, ok := d.node.(*ast.RangeStmt); ok && hf.DirectMentions(rs.X)["pkg/vm.(*Stack).Len"] && hf.DirectMentions(rs.X)["pkg/vm#tryStack"] {
+					okScan = true
+				}
+			}
+		}
+		nloops := 0
+		for _, l := range hf.Loops() {
+			if l.X != nil && (hf.DirectMentions(l.X)["pkg/vm#istack"] || hf.DirectMentions(l.X)["pkg/vm#tryStack"]) {
+				nloops++
+			}
+		}
+		if okScan && nloops >= 2 {
+			c.OK("vm.try-scan", c.P.Pos(hb.Decl.Pos()), "ContractHasTryBlock walks every frame of the contract and every handler on each frame's try stack")
+		} else {
+			c.Fail("vm.try-scan", c.P.Pos(hb.Decl.Pos()), "ContractHasTryBlock no longer examines every exception handler of every frame of the current contract: a call made while an outer TRY is active gets no layer of its own, so a caught exception leaves the callee's changes behind")
+		}
+	}
+}
+
+// ruleResetComplete: every VM field that execution writes is re-initialised by Reset (one VM is reused for all
+// transactions of a block).
+func ruleResetComplete(c *Ctx) {
+	pk := c.P.Pkg("pkg/vm")
+	reset := c.P.Func("pkg/vm", "VM", "Reset")
+	ex := c.P.Func("pkg/vm", "VM", "execute")
+	if pk == nil || reset == nil || ex == nil {
+		c.Lost("anchor", "vm.Reset / vm.execute not found")
+		return
+	}
+	vmT, _ := pk.Types.Scope().Lookup("VM").(*types.TypeName)
+	st, _ := vmT.Type().Underlying().(*types.Struct)
+	isVMField := map[string]bool{}
+	for i := 0; st != nil && i < st.NumFields(); i++ {
+		isVMField[symOf(st.Field(i))] = true
+	}
+	ws := c.P.PkgWriteSummary("pkg/vm")
+	// fields written while executing: closure of execute + the exception machinery inside package vm
+	written := map[string]string{}
+	g := c.P.MRG()
+	via := g.Reach([]*ssa.Function{c.P.SSAFunc(ex.Obj)}, func(e *MEdge) bool {
+		cf := e.Callee.Fn
+		for cf.Parent() != nil {
+			cf = cf.Parent()
+		}
+		return cf.Pkg == nil || pkgRel(cf.Pkg.Pkg) != "pkg/vm"
+	})
+	for fn := range via {
+		o, ok := fn.Object().(*types.Func)
+		if !ok {
+			continue
+		}
+		for fld := range ws.Direct[o] {
+			if isVMField[fld] {
+				// only writes whose base is a *VM value
+				written[fld] = FuncKey(o)
+			}
+		}
+	}
+	resetW := ws.Direct[reset.Obj]
+	// fields that are configuration of the embedding (set once per use by the owner), not execution state
+	config := map[string]string{
+		"pkg/vm#hooks": "debugger/inspection hooks", "pkg/vm#isHardforkEnabled": "protocol configuration callback",
+		"pkg/vm#keys": "public key cache (content-addressed, harmless to keep)", "pkg/vm#estack": "re-sliced through estack.elems in Reset; replaced per context on load",
+	}
+	n := 0
+	for _, fld := range sortedKeys(written) {
+		n++
+		key := "field." + shortSym(fld)
+		switch {
+		case len(resetW[fld]) > 0:
+			c.OK(key, c.P.Pos(reset.Decl.Pos()), fmt.Sprintf("VM.%s is written during execution (%s) and re-initialised by Reset", shortSym(fld), shortSym(written[fld])))
+		case config[fld] != "":
+			c.OK(key, c.P.Pos(reset.Decl.Pos()), "tabled: "+config[fld])
+		default:
+			c.Fail(key, c.P.Pos(reset.Decl.Pos()), fmt.Sprintf("VM.%s is written during execution (%s) but VM.Reset does not re-initialise it: the block's next transaction, which reuses this VM, starts with the previous transaction's %s", shortSym(fld), written[fld], shortSym(fld)))
+		}
+	}
+	c.Floor("VM fields written during execution", n, 5)
 }
